@@ -1,113 +1,22 @@
 //! scratch probe (deleted before hand-in)
-use anda_cognitive_nexus::{CognitiveNexus, nexus::DEFAULT_SPACE, schema::{PackageState, SchemaLock, SchemaPackage}};
-use anda_db::database::{AndaDB, DBConfig};
-use anda_kip::{Executor, Request};
-use object_store::memory::InMemory;
-use serde_json::json;
-use std::sync::Arc;
+use vbelief::case::*;
+use vbelief::runner::{self, Plan};
+use vbelief::world::World;
 use std::time::Instant;
-
-const PROFILE_ID: &str = "kip://profiles/cognitive-memory";
-const PKG: &str = r#"{
-    "format": "KIP-Schema-Package",
-    "manifest": {"package_id": "kip://verif/belief", "version": "1.0.0"},
-    "definitions": {
-        "concept_types": {
-            "Thing": {"kind": "ConceptType", "description": "A subject."},
-            "Val": {"kind": "ConceptType", "description": "A value."},
-            "Src": {"kind": "ConceptType", "description": "An actor."}
-        },
-        "predicates": {
-            "fval": {"kind": "PredicateType", "description": "Single-valued.", "functional": true, "open_world": true},
-            "pval": {"kind": "PredicateType", "description": "Multi-valued.", "functional": false}
-        }
-    }
-}"#;
-
-async fn exec(n: &CognitiveNexus, cmd: &str, params: serde_json::Value) -> anda_kip::Response {
-    let request: Request = serde_json::from_value(json!({"kip":"2.0","operations":[{"command": cmd, "parameters": params}]})).unwrap();
-    let parsed = request.operations[0].parse().unwrap_or_else(|e| panic!("{cmd}\n{e:?}"));
-    n.execute(parsed, &request, &request.operations[0]).await
-}
-
 fn main() {
-    vcore::util::block_on(async {
+    let k: usize = std::env::args().nth(1).and_then(|s| s.parse().ok()).unwrap_or(48);
+    let mut groups = Vec::new();
+    for i in 0..2000u32 {
+        let a = Spec::simple((i % 3) as u8, (i % 8) as u8, Stance::ALL[(i % 3) as usize], [0, 3, 6, 9][(i % 4) as usize]);
+        let b = Spec::simple(((i / 3) % 3) as u8, ((i / 8) % 8) as u8, Stance::Support, 6);
+        let c = Spec::simple(((i / 9) % 3) as u8, ((i / 64) % 8) as u8, Stance::Support, 9);
+        groups.push(permutations(&[a, b, c]).iter().map(|p| Case::of_specs(false, p)).collect::<Vec<_>>());
+    }
+    for (ep, rs) in [(false, false), (true, true)] {
+        let mut w = World::new("p");
+        let plan = Plan { queries: vec![(3, 0)], entry_points: ep, restab: rs, batch_cases: k };
         let t = Instant::now();
-        let db = AndaDB::connect(Arc::new(InMemory::new()), DBConfig { name: "b".into(), description: "b".into(), ..Default::default() }).await.unwrap();
-        let n = CognitiveNexus::connect(Arc::new(db)).await.unwrap();
-        for src in [anda_cognitive_nexus::profiles::COGNITIVE_MEMORY, PKG] {
-            n.install_package(&SchemaPackage::parse(src).unwrap(), "test").await.unwrap();
-        }
-        let mut lock = SchemaLock::default();
-        for (id, v) in [(PROFILE_ID, "2.0.0"), ("kip://verif/belief", "1.0.0")] {
-            lock.packages.insert(id.to_string(), v.to_string());
-            lock.states.insert(id.to_string(), PackageState::Active);
-        }
-        n.activate_schema(DEFAULT_SPACE, lock).await.unwrap();
-        println!("setup {:?}", t.elapsed());
-        let r = exec(&n, r#"MUTATE {
-            CREATE CONCEPT ?a0 { TYPE "Src" NAME "a0" }
-            CREATE CONCEPT ?a1 { TYPE "Src" NAME "a1" }
-            CREATE CONCEPT ?v0 { TYPE "Val" NAME "v0" }
-            CREATE CONCEPT ?v1 { TYPE "Val" NAME "v1" }
-            CREATE EVIDENCE ?e0 { SET FIELDS { evidence_class: "tool_result", payload: "0" } }
-            CREATE EVIDENCE ?e1 { SET FIELDS { evidence_class: "tool_result", payload: "1" } }
-            CREATE CONCEPT ?s0 { TYPE "Thing" NAME "s0" }
-        }"#, json!({})).await;
-        println!("{}", serde_json::to_string(&r).unwrap());
-        let h = r.first_result().unwrap()["handles"].clone();
-        let t = Instant::now();
-        let mut last = None;
-        for i in 0..50 {
-            let r = exec(&n, r#"ASSERT ?a (:s, "fval", :v) { by: :by, mode: "stated", stance: "support", confidence: 0.6, evidence: [:e0, :e1], valid: {from: "2026-01-01T00:00:00Z", until: "2027-01-01T00:00:00Z"} }"#,
-                json!({"s": h["s0"], "v": h["v0"], "by": h[if i%2==0 {"a0"} else {"a1"}], "e0": h["e0"], "e1": h["e1"]})).await;
-            last = Some(r);
-        }
-        println!("50 asserts {:?}", t.elapsed());
-        println!("{}", serde_json::to_string(&last.unwrap()).unwrap());
-        let r = exec(&n, r#"ASSERT ?a (:s, "fval", :v) { by: :by, mode: "hypothetical", stance: "reject" }"#,
-                json!({"s": h["s0"], "v": h["v1"], "by": h["a0"]})).await;
-        let aid = r.first_result().unwrap()["handles"]["a"].clone();
-        let r = exec(&n, r#"RETRACT ASSERTION :a"#, json!({"a": aid})).await;
-        println!("{}", serde_json::to_string(&r).unwrap());
-        let t = Instant::now();
-        let mut last = None;
-        for _ in 0..50 {
-            let r = exec(&n, r#"FIND(?b) WHERE { ?b BELIEF (:s, "fval", :v) } FOR TIME "2026-06-01T00:00:00Z" WITH EPISTEMIC {accept: 0.9, material: 0.5}"#,
-                json!({"s": h["s0"], "v": h["v0"]})).await;
-            last = Some(r);
-        }
-        println!("50 belief {:?}", t.elapsed());
-        println!("{}", serde_json::to_string(&last.unwrap()).unwrap());
-        let r = exec(&n, r#"FIND(?b) WHERE { ?b BELIEF SLOT (:s, "fval") } FOR TIME "2026-06-01T00:00:00Z""#, json!({"s": h["s0"]})).await;
-        println!("{}", serde_json::to_string(&r).unwrap());
-        let r = exec(&n, r#"FIND(?b) WHERE { ?b BELIEF (:s, "pval", :v) } FOR TIME "2026-06-01T00:00:00Z""#, json!({"s": h["s0"], "v": h["v0"]})).await;
-        println!("{}", serde_json::to_string(&r).unwrap());
-
-        // batch timing: 20 MUTATEs each with 3 ASSERTs on fresh subjects
-        let t = Instant::now();
-        for i in 0..20 {
-            let r = exec(&n, &format!(r#"MUTATE {{
-                CREATE CONCEPT ?s {{ TYPE "Thing" NAME "x{i}" }}
-                ASSERT (?s, "fval", :v) {{ by: :by, mode: "stated", confidence: 0.6, evidence: [:e0] }}
-                ASSERT (?s, "fval", :v) {{ by: :by2, mode: "stated", confidence: 0.3, evidence: [:e1] }}
-                ASSERT (?s, "fval", :v2) {{ by: :by, mode: "stated", confidence: 0.9, evidence: [:e0, :e1] }}
-            }}"#), json!({"v": h["v0"], "v2": h["v1"], "by": h["a0"], "by2": h["a1"], "e0": h["e0"], "e1": h["e1"]})).await;
-            if i == 0 { println!("{}", serde_json::to_string(&r).unwrap()); }
-        }
-        println!("20 batched mutates of 3 asserts {:?}", t.elapsed());
-        let t = Instant::now();
-        for i in 0..20 {
-            let r = exec(&n, &format!(r#"CREATE CONCEPT ?s {{ TYPE "Thing" NAME "y{i}" }}"#), json!({})).await;
-            if i == 0 { println!("{}", serde_json::to_string(&r).unwrap()); }
-        }
-        println!("20 create concept {:?}", t.elapsed());
-        let r = exec(&n, r#"FIND(?b) WHERE { ?b BELIEF (:s, "fval", :v) } FOR TIME "2026-06-01T00:00:00Z""#, json!({"s": h["s0"], "v": h["a0"]})).await;
-        println!("never-stored: {}", serde_json::to_string(&r).unwrap());
-        let t = Instant::now();
-        for _ in 0..50 {
-            let _ = exec(&n, r#"FIND(?b) WHERE { ?b BELIEF (:s, "fval", :v) } FOR TIME "2026-06-01T00:00:00Z""#, json!({"s": h["s0"], "v": h["v1"]})).await;
-        }
-        println!("50 small belief {:?}", t.elapsed());
-    });
+        let o = runner::run_groups(&mut w, &groups, &plan, None);
+        println!("k={k} ep={ep} histories={} total {:?} record {:?} query {:?} statements {} queries {} viol {}", o.histories, t.elapsed(), w.t_record, w.t_query, w.statements, w.queries, o.violations.len());
+    }
 }
